@@ -285,7 +285,7 @@ def run(chk):
     ]
     chk.assumptions = [
         "theorems quantify over all edge tables / version tables; the tables of the current source are re-derived and evaluated on every run",
-        "whole-manifest validity is proved for the name/version lines only (C15_name_lines_valid); dependency lines are validated per run (table_wf on the regenerated table, manifest_ok on every built case, real cargo on the name cases)",
+        "whole-manifest validity is proved for the name/version lines only (C15_manifest_valid_toml_partial); dependency lines are validated per run (table_wf on the regenerated table, manifest_ok on every built case, real cargo on the name cases)",
         "emitter use-line insertion is not modelled separately: the generated Rust is inspected directly",
     ]
     # TEMPORARY (lead: drop after merging build/kf-C15.json into known_findings.json)
